@@ -302,6 +302,7 @@ func (c *Ctx) recoveryNameGuards(rule string) {
 }
 
 func c20(c *Ctx) {
+	defer c20hashCoversBodies(c)
 	P, R := c.P, c.R
 	R.Explain("R20.1", "T-MUST: in Mailbox.Append every path on which AppendRegular returned an error reaches the transaction that calls actionCreateRecoveredMessage, except on the true edge of errors.Is(err, connector.ErrMessageSizeExceedsLimits).")
 	R.Explain("R20.2", "T-CALLERS: AppendRegular is called only by Mailbox.Append; handleAppend appends only through AppendOnlyMailbox.Append and sends the APPENDUID OK only on the nil edge with the UID Append returned.")
@@ -572,4 +573,72 @@ func recoveryCalls(f *ssa.Function, depth int) map[ssa.Instruction]bool {
 		}
 	}
 	return cut
+}
+
+// c20hashCoversBodies (R20.6): the dedup hash of a rejected message covers every leaf body.
+func c20hashCoversBodies(c *Ctx) {
+	P, R := c.P, c.R
+	R.Explain("R20.6", "the duplicate test cannot confuse two different messages by construction of the hash: in rfc822.GetMessageHash the walk over the MIME tree hashes the body of every leaf part - each nil-error return of the walk callback is preceded by hashBody(section.Body()) except on the edge where the section has children.  A leaf that is skipped (for instance because its content type does not parse) makes two messages that differ only there collide, and the second rejected APPEND is dropped as a 'known duplicate'.")
+	f := c.fn("R20.6", "rfc822.GetMessageHash")
+	if f == nil {
+		return
+	}
+	n := 0
+	for _, cl := range engine.WithClosures(f)[1:] {
+		cut := map[ssa.Instruction]bool{}
+		for _, cs := range engine.Calls(cl) {
+			if sc := cs.Common().StaticCallee(); sc != nil && engine.ShortName(sc) == "hashBody" && cs.Instr.Parent() == cl {
+				cut[cs.Instr] = true
+			}
+		}
+		if len(cut) == 0 {
+			continue
+		}
+		n++
+		// the has-children edge
+		skip := map[engine.Edge]bool{}
+		for _, b := range cl.Blocks {
+			iff := engine.IfOf(b)
+			if iff == nil {
+				continue
+			}
+			bin, ok := iff.Cond.(*ssa.BinOp)
+			if !ok {
+				continue
+			}
+			isLenChildren := func(v ssa.Value) bool {
+				call, ok := engine.IsBuiltinCall(v, "len")
+				if !ok {
+					return false
+				}
+				return engine.AnyBackward(call.Call.Args[0], engine.FlowOpts{Loads: true}, func(x ssa.Value) bool {
+					if ex, ok := x.(*ssa.Extract); ok {
+						if cc, ok := ex.Tuple.(*ssa.Call); ok && cc.Call.StaticCallee() != nil && engine.ShortName(cc.Call.StaticCallee()) == "Children" {
+							return true
+						}
+					}
+					return false
+				})
+			}
+			switch {
+			case bin.Op == token.GTR && isLenChildren(bin.X):
+				skip[engine.Edge{From: b, Succ: 0}] = true
+			case bin.Op == token.NEQ && isLenChildren(bin.X):
+				skip[engine.Edge{From: b, Succ: 0}] = true
+			case bin.Op == token.EQL && isLenChildren(bin.X):
+				skip[engine.Edge{From: b, Succ: 1}] = true
+			}
+		}
+		bad := ""
+		for _, ret := range engine.Returns(cl) {
+			if lr := engine.LastResult(ret); lr == nil || !engine.IsNilConst(lr) {
+				continue
+			}
+			if engine.ReachesAvoiding(cl, ret, cut, skip) {
+				bad = P.Pos(ret.Pos())
+			}
+		}
+		R.Check(bad == "", "R20.6", c.name(cl)+"|every-leaf-body-hashed", P.Pos(cl.Pos()), "every leaf part contributes its body to the hash", "the walk callback can return nil for a leaf part ("+bad+") without hashing its body: two rejected messages that differ only in that part get the same hash and the second one is dropped as a known duplicate (message lost)")
+	}
+	R.Min("R20.6", "walk callbacks that hash bodies", n, 1)
 }
